@@ -217,6 +217,12 @@ Theorem C10_oserror_exit_one : forall errno, exit_status (OsErr errno) = 1%N.
 Proof. exact oserror_status_one. Qed.
 Print Assumptions C10_oserror_exit_one.
 
+(* the hypothesis on the code is needed: a script exit with a truthy code that is a multiple of 256 ends the run with
+   status 0 (finding C10-script-exit-code-multiple-of-256; replayed on the real driver by oracle:exit_status) *)
+Theorem C10_failed_run_exit_refuted_256 : exists c, truthy c = true /\ exit_status (ScriptExit c) = 0%N.
+Proof. exists (CNum 256). vm_compute. split; reflexivity. Qed.
+Print Assumptions C10_failed_run_exit_refuted_256.
+
 Example C10_exit_status_nonvacuous :
   raisable (OsErr None) = true /\ exit_status (OsErr None) = 1%N /\ raisable (ScriptExit (CNum 3)) = true /\
   exit_status (ScriptExit (CNum 3)) = 3%N /\ exit_status (ScriptExit (CText true)) = 1%N /\
